@@ -410,6 +410,10 @@ func (self *BinaryConv) handleUnsets(b *thrift.RequiresBitmap, desc *thrift.Stru
 			if err != nil {
 				return err
 			}
+			// NOTICE: same as a set field: only fall back to json body if WriteHttpValueFallback is set
+			if !self.opts.WriteHttpValueFallback {
+				return nil
+			}
 		}
 		if ok {
 			return nil
